@@ -108,6 +108,15 @@ func (fw *fedWorld) buildService(name string) (*graphql.Schema, error) {
 			return out, nil
 		})
 		q.FieldFunc("n", func() int64 { return 42 })
+		s.Mutation().FieldFunc("touchA", func(ctx context.Context, args struct{ I int64 }) (*A, error) {
+			if err := w.point(ctx, "Mutation.touchA", args.I); err != nil {
+				return nil, err
+			}
+			if args.I < 0 || int(args.I) >= w.nA {
+				return nil, nil
+			}
+			return w.as[args.I], nil
+		})
 
 		// the federated key of every type is its id, on every service
 		oa := s.Object("A", A{}, schemabuilder.FetchObjectFromKeys(func(args struct{ Keys []*SA }) []*A {
@@ -213,8 +222,14 @@ func (fw *fedWorld) buildService(name string) (*graphql.Schema, error) {
 	}
 	// a non-root service: shadow objects fetched from their keys
 	s.Query().FieldFunc("ping_"+name, func() string { return name })
-	if serves("A.tag") || serves("A.score") {
+	if serves("A.tag") || serves("A.score") || serves("A.extra") {
 		oa := s.Object("A", SA{}, schemabuilder.FetchObjectFromKeys(func(args struct{ Keys []*SA }) []*SA { return args.Keys }))
+		if serves("A.extra") {
+			// only exists after the service was redeployed
+			oa.FieldFunc("extra", func(ctx context.Context, a *SA) (string, error) {
+				return fmt.Sprintf("extra-%d", a.ID), nil
+			})
+		}
 		if serves("A.tag") {
 			oa.FieldFunc("tag", func(ctx context.Context, a *SA, args struct{ X int64 }) (string, error) {
 				if err := w.point(ctx, "A.tag", a.ID); err != nil {
@@ -320,6 +335,8 @@ func (t *transport) Execute(ctx context.Context, req *federation.QueryRequest) (
 type fedReqKey struct{}
 
 type fedRequest struct {
+	mutation bool
+	special  string // "", "introspect-extra", "data-extra": issued after a service was redeployed with a new field
 	firstErrorAt time.Duration // simulated time (+1ns) at which a service error was first returned for this request
 	cancelledAt  time.Duration
 	doneAt       time.Duration
@@ -398,10 +415,20 @@ func fedBody(c *runner.Ctx) {
 	nReq := 1 + c.Choose(4, "requests")
 	var reqs []*fedRequest
 	for i := 0; i < nReq; i++ {
-		g := &gen{c: c, w: w, budget: 12}
-		root := g.genSet("Query", 0)
-		g.addTwins(root)
-		r := &fedRequest{idx: i, root: root, text: g.text(root, ""), cancelAt: -1}
+		g := &gen{c: c, w: w, budget: 12, noD: true}
+		var r *fedRequest
+		if c.Choose(4, "request-kind") == 1 {
+			// a mutation whose response selects fields that live on other services
+			sel := &qsel{name: "touchA", argV: int64(c.Choose(w.nA+1, "arg-i"))}
+			sel.arg = fmt.Sprintf("(i: %d)", sel.argV)
+			sel.sub = g.genSetPlain("A", 1)
+			root := &qset{sels: []*qsel{sel}}
+			r = &fedRequest{idx: i, root: root, text: "mutation " + g.text(root, ""), cancelAt: -1, mutation: true}
+		} else {
+			root := g.genSet("Query", 0)
+			g.addTwins(root)
+			r = &fedRequest{idx: i, root: root, text: g.text(root, ""), cancelAt: -1}
+		}
 		if fw.faulty && c.Biased(3, 700, "request-cancel") > 0 {
 			r.cancelAt = time.Duration(c.Choose(12, "cancel-at")) * time.Millisecond
 		}
@@ -437,6 +464,40 @@ func fedBody(c *runner.Ctx) {
 			simrt.Logf("request %d done err=%s", r.idx, errLine(r.err))
 		}()
 	}
+	// a rolling deploy: the last service comes back with a new field on A; after
+	// the next successful refresh the gateway must plan it, and its own
+	// introspection must advertise it
+	if !fw.faulty && c.Choose(3, "redeploy") == 1 {
+		simrt.Sleep(time.Duration(c.Choose(2000, "redeploy-at")) * time.Millisecond)
+		last := transports[len(transports)-1]
+		fw.homes["A.extra"] = []string{last.name}
+		schema, err := fw.buildService(last.name)
+		if err == nil {
+			if srv, err := federation.NewServer(schema); err == nil {
+				c.Fault("service-redeploy")
+				last.srv = srv
+				simrt.Sleep(3500 * time.Millisecond) // more than three refresh intervals
+				for _, sp := range []struct{ kind, text string }{
+					{"data-extra", "{ a_0: a(i: 0) { id extra } }"},
+					{"introspect-extra", `{ __type(name: "A") { fields { name } } }`},
+				} {
+					r := &fedRequest{idx: len(reqs), text: sp.text, special: sp.kind, cancelAt: -1}
+					reqs = append(reqs, r)
+					go func() {
+						defer func() { finished++ }()
+						q, err := graphql.Parse(r.text, map[string]interface{}{})
+						if err != nil {
+							r.rejected = err
+							return
+						}
+						r.val, _, r.err = gateway.Execute(context.WithValue(ctx, fedReqKey{}, r), q, nil)
+						r.done = true
+						r.doneAt = simrt.Now()
+					}()
+				}
+			}
+		}
+	}
 	for i := 0; i < 300 && finished < len(reqs); i++ {
 		simrt.Sleep(time.Second)
 	}
@@ -459,8 +520,16 @@ func fedBody(c *runner.Ctx) {
 			c.ViolateFor("C06,C15", key, "Executor.Execute did not return within 5 simulated minutes (cancelled: %v): %s", r.cancelled, r.text)
 			continue
 		}
+		if r.special != "" {
+			fw.checkSpecial(c, r)
+			continue
+		}
 		ev := &evaluator{w: w}
-		want := ev.object("Query", 0, r.root, nil)
+		rootTyp := "Query"
+		if r.mutation {
+			rootTyp = "Mutation"
+		}
+		want := ev.object(rootTyp, 0, r.root, nil)
 		delete(want.(map[string]interface{}), "__key")
 		wantN, _ := normalize(want)
 		// promptness: once a sub-query failed or the request was cancelled, the
@@ -497,8 +566,12 @@ func fedBody(c *runner.Ctx) {
 			continue
 		}
 		// the monolith (real thunder, all fields on one server) must agree too
-		if q, err := graphql.Parse(r.text, map[string]interface{}{}); err == nil && graphql.PrepareQuery(context.Background(), monolith.Query, q.SelectionSet) == nil {
-			val, err := graphql.NewExecutor(graphql.NewImmediateGoroutineScheduler()).Execute(context.Background(), monolith.Query, nil, q)
+		monoRoot := monolith.Query
+		if r.mutation {
+			monoRoot = monolith.Mutation
+		}
+		if q, err := graphql.Parse(r.text, map[string]interface{}{}); err == nil && graphql.PrepareQuery(context.Background(), monoRoot, q.SelectionSet) == nil {
+			val, err := graphql.NewExecutor(graphql.NewImmediateGoroutineScheduler()).Execute(context.Background(), monoRoot, nil, q)
 			if err == nil {
 				mono, _ := normalize(val)
 				if !reflect.DeepEqual(got, mono) {
@@ -586,4 +659,26 @@ func dropUnrequestedTypename(got, want interface{}) interface{} {
 		return out
 	}
 	return got
+}
+
+// checkSpecial: requests issued after a service was redeployed with the new
+// field A.extra (fault-free runs only, more than three refresh intervals
+// later).
+func (fw *fedWorld) checkSpecial(c *runner.Ctx, r *fedRequest) {
+	if r.err != nil {
+		c.ViolateFor("C06", "gateway-ignores-redeployed-schema/"+r.special, "after a service was redeployed with a new field and three refresh intervals passed, %s failed: %v", r.text, firstLine(r.err))
+		return
+	}
+	got, _ := normalize(r.val)
+	text := short(got)
+	switch r.special {
+	case "data-extra":
+		if !strings.Contains(text, `"extra":"extra-100"`) {
+			c.ViolateFor("C06", "gateway-ignores-redeployed-schema/data", "%s returned %s", r.text, text)
+		}
+	case "introspect-extra":
+		if !strings.Contains(text, `"name":"extra"`) {
+			c.ViolateFor("C06", "gateway-introspection-stale-after-refresh", "the gateway serves A.extra but its own introspection does not advertise it: %s returned %s", r.text, text)
+		}
+	}
 }
